@@ -12,14 +12,6 @@ Proof.
   - destruct (IH _ _ H). auto.
 Qed.
 
-Lemma find_element_some : forall l n e, find_element l n = Some e -> In e l /\ e_name e = n.
-Proof.
-  induction l as [|x l IH]; simpl; intros n e H; [discriminate|].
-  destruct (str_eqb (e_name x) n) eqn:E.
-  - inversion H; subst. apply str_eqb_eq in E. auto.
-  - destruct (IH _ _ H). auto.
-Qed.
-
 Lemma ostr_eqb_eq : forall a b, ostr_eqb a b = true <-> a = b.
 Proof.
   intros [a|] [b|]; simpl; split; intro H; try discriminate; try reflexivity.
@@ -148,7 +140,7 @@ Section Expand.
 Variable s : schema.
 Hypothesis Hnd : NoDup (map g_name (s_groups s)).
 
-Lemma group_attrs_expands : forall left n l, group_attrs (s_groups s) left n = GOk l ->
+Lemma group_attrs_expands : forall left n l, group_attrs_rec (s_groups s) left n = GOk l ->
   exists g, group_named s n g /\ expands s (g_members g) l.
 Proof.
   induction left as [|left' IH]; intros n l H; simpl in H; [discriminate|].
@@ -158,7 +150,7 @@ Proof.
   destruct m.
   - match type of H with match ?X with _ => _ end = _ => destruct X eqn:El end; [|discriminate].
     inversion H; subst. constructor. apply IHm. reflexivity.
-  - destruct (group_attrs (s_groups s) left' g0) eqn:Eg; [|discriminate].
+  - destruct (group_attrs_rec (s_groups s) left' g0) eqn:Eg; [|discriminate].
     match type of H with match ?X with _ => _ end = _ => destruct X eqn:El end; [|discriminate].
     inversion H; subst. destruct (IH _ _ Eg) as (g' & Hg' & He'). econstructor; eauto.
   - constructor. apply IHm. assumption.
@@ -166,14 +158,14 @@ Proof.
   - constructor. apply IHm. assumption.
 Qed.
 
-Lemma expanded_attrs_expands : forall rl ms l, expanded_attrs (s_groups s) rl ms = GOk l -> expands s ms l.
+Lemma expanded_attrs_expands : forall rl ms l, expanded_attrs_rec (s_groups s) rl ms = GOk l -> expands s ms l.
 Proof.
-  intros rl ms l H. unfold expanded_attrs in H. destruct rl as [|left']; [discriminate|].
+  intros rl ms l H. unfold expanded_attrs_rec in H. destruct rl as [|left']; [discriminate|].
   revert l H. induction ms as [|m ms IHm]; intros l H; [inversion H; constructor|].
   destruct m.
   - match type of H with match ?X with _ => _ end = _ => destruct X eqn:El end; [|discriminate].
     inversion H; subst. constructor. apply IHm. reflexivity.
-  - destruct (group_attrs (s_groups s) left' g) eqn:Eg; [|discriminate].
+  - destruct (group_attrs_rec (s_groups s) left' g) eqn:Eg; [|discriminate].
     match type of H with match ?X with _ => _ end = _ => destruct X eqn:El end; [|discriminate].
     inversion H; subst. destruct (group_attrs_expands _ _ _ Eg) as (g' & Hg' & He'). econstructor; eauto.
   - constructor. apply IHm. assumption.
@@ -206,24 +198,6 @@ Proof.
     + intro x. rewrite H3. simpl. tauto.
 Qed.
 
-Lemma children_check_ok : forall elements ms seen, children_check elements seen ms = VOk ->
-  NoDup seen ->
-  (forall n c d l, In (MChild n c d l) ms -> exists e, find_element elements n = Some e) /\
-  NoDup (child_names ms) /\ (forall n, In n (child_names ms) -> ~ In n seen).
-Proof.
-  intros elements ms. induction ms as [|m ms IH]; intros seen H Hnd; simpl in H.
-  - split; [intros ? ? ? ? []|]. split; [constructor | intros ? []].
-  - destruct m; try (destruct (IH _ H Hnd) as (H1 & H2 & H3); split; [|split; assumption];
-                     intros n0 c0 d0 l0 [Hin|Hin]; [discriminate | eauto]).
-    destruct (find_element elements name) as [e|] eqn:Ef; [|discriminate].
-    destruct (smem name seen) eqn:Es; [discriminate|].
-    assert (Hns : ~ In name seen) by (intro Hin; apply smem_In in Hin; congruence).
-    destruct (IH _ H (NoDup_cons _ Hns Hnd)) as (H1 & H2 & H3). split; [|split].
-    + intros n0 c0 d0 l0 [Hin|Hin]; [inversion Hin; subst; eauto | eauto].
-    + simpl. constructor; [|assumption]. intro Hin. apply (H3 _ Hin). left. reflexivity.
-    + simpl. intros n [Hn|Hn]; [subst; assumption|]. intro Hin. apply (H3 _ Hn). right. assumption.
-Qed.
-
 Lemma constraints_check_ok : forall names ms, constraints_check names ms = VOk ->
   forall k bs d l, In (MCon k bs d l) ms -> names_in bs names /\ (k = CRequires -> exists a b, bs = [[a]; [b]]).
 Proof.
@@ -235,9 +209,9 @@ Proof.
 Qed.
 
 Lemma element_check_sound : forall s rl e, NoDup (map g_name (s_groups s)) ->
-  element_check s rl e = VOk -> element_rules s e.
+  element_check_rec s rl e = VOk -> element_rules s e.
 Proof.
-  intros s rl e Hnd H. unfold element_check in H.
+  intros s rl e Hnd H. unfold element_check_rec in H.
   apply vthen_ok in H. destruct H as [H1 H]. apply vthen_ok in H. destruct H as [H2 H].
   apply vthen_ok in H. destruct H as [H3 H]. rewrite vfor_ok in H1.
   unfold element_rules. split; [|split; [|split; [|split]]].
@@ -249,7 +223,7 @@ Proof.
   - intros n c d l Hin. destruct (children_check_ok _ _ _ H3 (NoDup_nil _)) as (Hc & _ & _).
     destruct (Hc _ _ _ _ Hin) as (e' & Ef). apply find_element_some in Ef. exists e'. exact Ef.
   - destruct (children_check_ok _ _ _ H3 (NoDup_nil _)) as (_ & Hc & _). exact Hc.
-  - destruct (expanded_attrs (s_groups s) rl (e_members e)) as [attrs|x] eqn:Ex; [|discriminate].
+  - destruct (expanded_attrs_rec (s_groups s) rl (e_members e)) as [attrs|x] eqn:Ex; [|discriminate].
     destruct (dup_check (e_line e) [] attrs) as [names|l|x] eqn:Ed; try discriminate.
     exists attrs. split; [eapply expanded_attrs_expands; eassumption|].
     destruct (dup_check_ok _ _ _ _ Ed (NoDup_nil _)) as (Hd1 & _ & Hd3). split; [assumption|].
@@ -278,30 +252,30 @@ Lemma cc_loop_use : forall left stack name ms b l,
   (fix loop (ms : list member) : vres :=
      match ms with
      | [] => VOk
-     | MUse g' l :: r => match check_cycle (s_groups s) left g' (stack ++ [name]) l with VOk => loop r | e => e end
+     | MUse g' l :: r => match check_cycle_rec (s_groups s) left g' (stack ++ [name]) l with VOk => loop r | e => e end
      | _ :: r => loop r
      end) ms = VOk ->
-  In (MUse b l) ms -> check_cycle (s_groups s) left b (stack ++ [name]) l = VOk.
+  In (MUse b l) ms -> check_cycle_rec (s_groups s) left b (stack ++ [name]) l = VOk.
 Proof.
   intros left stack name ms b l. induction ms as [|m ms IH]; intros H Hin; [contradiction|].
   destruct Hin as [Hin|Hin].
-  - subst m. destruct (check_cycle (s_groups s) left b (stack ++ [name]) l); [reflexivity | discriminate..].
+  - subst m. destruct (check_cycle_rec (s_groups s) left b (stack ++ [name]) l); [reflexivity | discriminate..].
   - destruct m; try (apply IH; assumption).
-    destruct (check_cycle (s_groups s) left g (stack ++ [name]) line); [apply IH; assumption | discriminate..].
+    destruct (check_cycle_rec (s_groups s) left g (stack ++ [name]) line); [apply IH; assumption | discriminate..].
 Qed.
 
 Lemma cc_edge : forall left a stack line b,
-  check_cycle (s_groups s) left a stack line = VOk -> use_edge s a b ->
-  exists left' l', check_cycle (s_groups s) left' b (stack ++ [a]) l' = VOk.
+  check_cycle_rec (s_groups s) left a stack line = VOk -> use_edge s a b ->
+  exists left' l', check_cycle_rec (s_groups s) left' b (stack ++ [a]) l' = VOk.
 Proof.
   intros left a stack line b H (g & l & Hg & Hin). destruct left as [|left']; [discriminate|].
-  cbn [check_cycle] in H. destruct (smem a stack); [destruct left'; discriminate|].
+  cbn [check_cycle_rec] in H. destruct (smem a stack); [destruct left'; discriminate|].
   rewrite (find_group_named _ _ Hg) in H. exists left', l. eapply cc_loop_use; eassumption.
 Qed.
 
 Lemma cc_path : forall a c, use_path s a c -> forall left stack line,
-  check_cycle (s_groups s) left a stack line = VOk ->
-  exists left' stack' l', check_cycle (s_groups s) left' c stack' l' = VOk /\ incl (stack ++ [a]) stack'.
+  check_cycle_rec (s_groups s) left a stack line = VOk ->
+  exists left' stack' l', check_cycle_rec (s_groups s) left' c stack' l' = VOk /\ incl (stack ++ [a]) stack'.
 Proof.
   intros a c Hp. induction Hp as [a b He | a b c He Hp IH]; intros left stack line H.
   - destruct (cc_edge _ _ _ _ _ H He) as (left' & l' & H'). exists left', (stack ++ [a]), l'.
@@ -316,7 +290,7 @@ Lemma use_path_head_declared : forall a c, use_path s a c -> exists g, group_nam
 Proof. intros a c Hp. destruct Hp as [a b (g & l & Hg & _) | a b c (g & l & Hg & _) _]; eauto. Qed.
 
 Lemma cc_acyclic : forall rl,
-  (forall g, In g (s_groups s) -> check_cycle (s_groups s) rl (g_name g) [] (g_line g) = VOk) ->
+  (forall g, In g (s_groups s) -> check_cycle_rec (s_groups s) rl (g_name g) [] (g_line g) = VOk) ->
   forall n, ~ use_path s n n.
 Proof.
   intros rl Hcc n Hp. destruct (use_path_head_declared _ _ Hp) as (g & Hg & Hn).
@@ -324,21 +298,215 @@ Proof.
   destruct (cc_path _ _ Hp _ _ _ H0) as (left' & stack' & l' & H' & Hin).
   assert (Hs : smem n stack' = true).
   { apply smem_In. apply Hin. apply in_app_iff. right. left. reflexivity. }
-  destruct left' as [|left'']; [discriminate|]. cbn [check_cycle] in H'. rewrite Hs in H'.
+  destruct left' as [|left'']; [discriminate|]. cbn [check_cycle_rec] in H'. rewrite Hs in H'.
   destruct left''; discriminate.
 Qed.
 
 End Acyclic.
 
+(* ---- the shared depth-first search is sound: everything it marks done is closed and cycle-free *)
+
+Section DfsSound.
+Variable succ : str -> sres.
+
+Definition gedge (a b : str) : Prop := exists es l, succ a = SEdges es /\ In (b, l) es.
+Inductive gpath : str -> str -> Prop :=
+| gp_edge : forall a b, gedge a b -> gpath a b
+| gp_step : forall a b c, gedge a b -> gpath b c -> gpath a c.
+Definition is_node (n : str) : Prop := exists es, succ n = SEdges es.
+Definition Good (D : list str) : Prop :=
+  (forall a b, In a D -> gedge a b -> In b D \/ ~ is_node b) /\ (forall a, In a D -> ~ gpath a a).
+Definition disjoint (p D : list str) : Prop := forall x, In x p -> ~ In x D.
+
+Lemma gpath_head_node : forall a c, gpath a c -> is_node a.
+Proof. intros a c H. destruct H as [a b (es & l & E & _) | a b c (es & l & E & _) _]; exists es; assumption. Qed.
+
+Lemma closed_path : forall D a c, Good D -> In a D -> gpath a c -> In c D \/ ~ is_node c.
+Proof.
+  intros D a c [Hc _] Ha Hp. induction Hp as [a b He | a b c He Hp IH].
+  - apply (Hc a b Ha He).
+  - destruct (Hc a b Ha He) as [Hb|Hb]; [apply IH; assumption|].
+    exfalso. apply Hb. eapply gpath_head_node. eassumption.
+Qed.
+
+Lemma dfs_sound : forall fuel es path done done',
+  dfs fuel succ es path done = COk done' -> Good done -> disjoint path done ->
+  incl done done' /\ Good done' /\ disjoint path done' /\
+  (forall n l, In (n, l) es -> In n done' \/ ~ is_node n).
+Proof.
+  induction fuel as [|f IH]; intros es path done done' H HG Hd; [discriminate|].
+  cbn [dfs] in H. revert done done' H HG Hd. induction es as [|[n line] r IHr]; intros done done' H HG Hd.
+  - inversion H; subst. split; [apply incl_refl|]. split; [assumption|]. split; [assumption|]. intros n l [].
+  - destruct (smem n path) eqn:Ep; [discriminate|].
+    assert (Hnp : ~ In n path) by (intro Hin; apply smem_In in Hin; congruence).
+    destruct (smem n done) eqn:Edn.
+    { destruct (IHr _ _ H HG Hd) as (H1 & H2 & H3 & H4). split; [assumption|]. split; [assumption|]. split; [assumption|].
+      intros n0 l0 [E|Hin]; [inversion E; subst; left; apply H1; apply smem_In; assumption | eauto]. }
+    assert (Hnd : ~ In n done) by (intro Hin; apply smem_In in Hin; congruence).
+    destruct (succ n) as [| |es'] eqn:Es; [|discriminate|].
+    { destruct (IHr _ _ H HG Hd) as (H1 & H2 & H3 & H4). split; [assumption|]. split; [assumption|]. split; [assumption|].
+      intros n0 l0 [E|Hin]; [inversion E; subst; right; intros (es0 & E0); congruence | eauto]. }
+    destruct (dfs f succ es' (path ++ [n]) done) as [d1|l|e] eqn:Ed; try discriminate.
+    assert (Hd' : disjoint (path ++ [n]) done).
+    { intros x Hx. apply in_app_iff in Hx. destruct Hx as [Hx|[Hx|[]]]; [apply Hd; assumption | subst; assumption]. }
+    destruct (IH _ _ _ _ Ed HG Hd') as (I1 & I2 & I3 & I4).
+    assert (Hn1 : ~ In n d1) by (apply I3; apply in_app_iff; right; left; reflexivity).
+    assert (HG' : Good (n :: d1)).
+    { destruct I2 as [Hc Ha]. split.
+      - intros a b [Ea|Ha1] He.
+        + subst a. destruct He as (es0 & l0 & E0 & Hin). rewrite Es in E0. inversion E0; subst es0.
+          destruct (I4 _ _ Hin) as [Hb|Hb]; [left; right; assumption | right; assumption].
+        + destruct (Hc a b Ha1 He) as [Hb|Hb]; [left; right; assumption | right; assumption].
+      - intros a [Ea|Ha1]; [|apply Ha; assumption]. subst a. intro Hp.
+        assert (Hnode : is_node n) by (exists es'; assumption).
+        inversion Hp as [a b He | a b c He Hp']; subst.
+        + destruct He as (es0 & l0 & E0 & Hin). rewrite Es in E0. inversion E0; subst es0.
+          destruct (I4 _ _ Hin) as [Hb|Hb]; [contradiction | apply Hb; assumption].
+        + destruct He as (es0 & l0 & E0 & Hin). rewrite Es in E0. inversion E0; subst es0.
+          destruct (I4 _ _ Hin) as [Hb|Hb].
+          * destruct (closed_path d1 b n (conj Hc Ha) Hb Hp') as [Hn|Hn]; [contradiction | apply Hn; assumption].
+          * apply Hb. eapply gpath_head_node. eassumption. }
+    assert (Hdj : disjoint path (n :: d1)).
+    { intros x Hx [E|Hin]; [subst; contradiction|]. apply (I3 x); [apply in_app_iff; left; assumption | assumption]. }
+    destruct (IHr _ _ H HG' Hdj) as (H1 & H2 & H3 & H4).
+    split; [intros x Hx; apply H1; right; apply I1; assumption|]. split; [assumption|]. split; [assumption|].
+    intros n0 l0 [E|Hin]; [inversion E; subst; left; apply H1; left; reflexivity | eauto].
+Qed.
+
+Lemma Good_nil : Good [].
+Proof. split; intros a; intros; contradiction. Qed.
+
+(* all entries explored from the empty state: no node among them lies on a cycle *)
+Lemma dfs_acyclic : forall fuel es done', dfs fuel succ es [] [] = COk done' ->
+  forall n l, In (n, l) es -> ~ gpath n n.
+Proof.
+  intros fuel es done' H n l Hin Hp.
+  destruct (dfs_sound _ _ _ _ _ H Good_nil (fun x (Hx : In x []) => match Hx with end)) as (_ & [_ Ha] & _ & H4).
+  destruct (H4 n l Hin) as [Hn|Hn]; [exact (Ha n Hn Hp) | apply Hn; eapply gpath_head_node; eassumption].
+Qed.
+
+End DfsSound.
+
+Lemma vres_of_ok : forall r, vres_of r = VOk -> exists d, r = COk d.
+Proof. intros [d|l|e] H; simpl in H; try discriminate. eauto. Qed.
+
+(* ---- use graph *)
+
+Lemma use_edges_In : forall ms b l, In (b, l) (use_edges ms) <-> In (MUse b l) ms.
+Proof.
+  intros ms b l. unfold use_edges. rewrite in_flat_map. split.
+  - intros (m & Hm & Hin). destruct m; simpl in Hin; try contradiction. destruct Hin as [E|[]]. inversion E; subst. assumption.
+  - intro H. exists (MUse b l). split; [assumption | left; reflexivity].
+Qed.
+
+Lemma use_path_gpath : forall s, NoDup (map g_name (s_groups s)) ->
+  forall a c, use_path s a c -> gpath (succ_use (s_groups s)) a c.
+Proof.
+  intros s Hnd a c Hp.
+  assert (He : forall a b, use_edge s a b -> gedge (succ_use (s_groups s)) a b).
+  { intros a0 b0 (g & l & Hg & Hin). exists (use_edges (g_members g)), l. split.
+    - unfold succ_use. rewrite (find_group_named s Hnd _ _ Hg). reflexivity.
+    - apply use_edges_In. assumption. }
+  induction Hp as [a b H | a b c H Hp IH]; [apply gp_edge; auto | eapply gp_step; eauto].
+Qed.
+
+Lemma use_cycles_sound : forall s, NoDup (map g_name (s_groups s)) -> use_cycles (s_groups s) = VOk ->
+  forall n, ~ use_path s n n.
+Proof.
+  intros s Hnd H n Hp. unfold use_cycles in H. apply vres_of_ok in H. destruct H as (d & H).
+  destruct (use_path_head_declared s _ _ Hp) as (g & Hg & Hn).
+  apply (dfs_acyclic _ _ _ _ H n (g_line g)).
+  - apply in_map_iff. exists g. split; [rewrite Hn; reflexivity | assumption].
+  - apply use_path_gpath; assumption.
+Qed.
+
+(* ---- child graph *)
+
+Lemma find_element_named : forall s, NoDup (map e_name (s_elements s)) ->
+  forall n e, element_named s n e -> find_element (s_elements s) n = Some e.
+Proof.
+  intros s Hnd n e [Hin Hn]. revert Hnd. induction (s_elements s) as [|x l IH]; intro Hnd'; [contradiction|].
+  simpl in *. inversion Hnd' as [|? ? Hx Hl]; subst.
+  destruct Hin as [Hin|Hin].
+  - subst x. rewrite str_eqb_refl. reflexivity.
+  - destruct (str_eqb (e_name x) (e_name e)) eqn:E.
+    + apply str_eqb_eq in E. exfalso. apply Hx. rewrite E. apply in_map. assumption.
+    + apply IH; assumption.
+Qed.
+
+Lemma edges_of_In : forall els ename ms es b c d l t,
+  edges_of els ename ms = Some es -> In (MChild b c d l) ms -> b <> ename ->
+  find_element els b = Some t -> fhas (e_facets t) f_alias = false -> In (b, l) es.
+Proof.
+  intros els ename ms. induction ms as [|m ms IH]; intros es b c d l t H Hin Hne Et Ha; [contradiction|].
+  destruct Hin as [Hin|Hin].
+  - subst m. simpl in H. destruct (str_eqb b ename) eqn:E; [apply str_eqb_eq in E; contradiction|].
+    rewrite Et in H. destruct (edges_of els ename ms) as [es0|]; [|discriminate]. rewrite Ha in H.
+    inversion H; subst. left. reflexivity.
+  - destruct m; simpl in H; try (eapply IH; eassumption).
+    destruct (str_eqb name ename); [eapply IH; eassumption|].
+    destruct (find_element els name) as [t0|]; [|discriminate].
+    destruct (edges_of els ename ms) as [es0|] eqn:E0; [|discriminate].
+    assert (Hb : In (b, l) es0) by (eapply IH; eauto).
+    destruct (fhas (e_facets t0) f_alias); inversion H; subst; [assumption | right; assumption].
+Qed.
+
+Lemma edges_of_some' : forall els ename ms,
+  (forall n c d l, In (MChild n c d l) ms -> exists t, find_element els n = Some t) ->
+  exists es, edges_of els ename ms = Some es.
+Proof.
+  intros els ename ms. induction ms as [|m ms IH]; intro Hc; [exists []; reflexivity|].
+  assert (Hc' : forall n c d l, In (MChild n c d l) ms -> exists t, find_element els n = Some t)
+    by (intros; eapply Hc; right; eassumption).
+  destruct (IH Hc') as (es & Ees). destruct m; simpl; try (exists es; assumption).
+  destruct (str_eqb name ename); [exists es; assumption|].
+  destruct (Hc name card doc line (or_introl eq_refl)) as (t & Et). rewrite Et, Ees.
+  destruct (fhas (e_facets t) f_alias); eauto.
+Qed.
+
+Lemma child_path_gpath : forall s, NoDup (map e_name (s_elements s)) ->
+  (forall e, In e (s_elements s) -> forall n c d l, In (MChild n c d l) (e_members e) ->
+                                    exists t, find_element (s_elements s) n = Some t) ->
+  forall a c, child_path s a c -> gpath (succ_child (s_elements s)) a c.
+Proof.
+  intros s Hnd Hch a c Hp.
+  assert (He : forall a b, child_edge s a b -> gedge (succ_child (s_elements s)) a b).
+  { intros a0 b0 (e & t & c0 & d & l & Ha & Hin & Hne & Hb & Hal).
+    pose proof (find_element_named s Hnd _ _ Ha) as Ea. pose proof (find_element_named s Hnd _ _ Hb) as Eb.
+    destruct Ha as [Hae Hname]. destruct (edges_of_some' (s_elements s) (e_name e) (e_members e) (Hch e Hae)) as (es & Ees).
+    exists es, l. split.
+    - unfold succ_child. rewrite Ea, Ees. reflexivity.
+    - eapply edges_of_In; try eassumption. rewrite Hname. assumption. }
+  induction Hp as [a b H | a b c H Hp IH]; [apply gp_edge; auto | eapply gp_step; eauto].
+Qed.
+
+Lemma child_path_head : forall s a c, child_path s a c -> exists e, element_named s a e.
+Proof. intros s a c H. destruct H as [a b (e & t & c0 & d & l & Ha & _) | a b c (e & t & c0 & d & l & Ha & _) _]; eauto. Qed.
+
+Lemma child_cycles_sound : forall s, NoDup (map e_name (s_elements s)) ->
+  (forall e, In e (s_elements s) -> forall n c d l, In (MChild n c d l) (e_members e) ->
+                                    exists t, find_element (s_elements s) n = Some t) ->
+  child_cycles s = VOk -> forall n, ~ child_path s n n.
+Proof.
+  intros s Hnd Hch H n Hp. unfold child_cycles in H. apply vres_of_ok in H. destruct H as (d0 & H).
+  destruct (child_path_head s _ _ Hp) as (e & He & Hn).
+  apply (dfs_acyclic _ _ _ _ H n (e_line e)).
+  - apply in_map_iff. exists e. split; [rewrite Hn; reflexivity | assumption].
+  - apply child_path_gpath; assumption.
+Qed.
+
+
 (* ---- _validate is sound *)
 
-Lemma validate_sound : forall rl s, NoDup (map g_name (s_groups s)) -> validate rl s = VOk -> schema_rules s.
+Lemma validate_sound : forall rl s, NoDup (map g_name (s_groups s)) -> NoDup (map e_name (s_elements s)) ->
+  validate_rec rl s = VOk -> schema_rules s.
 Proof.
-  intros rl s Hnd H. unfold validate in H.
+  intros rl s Hnd Hnde H. unfold validate_rec in H.
   apply vthen_ok in H. destruct H as [H1 H]. apply vthen_ok in H. destruct H as [H2 H].
-  apply vthen_ok in H. destruct H as [H3 H]. apply vthen_ok in H. destruct H as [H4 H5].
+  apply vthen_ok in H. destruct H as [H3 H]. apply vthen_ok in H. destruct H as [H4 H].
+  apply vthen_ok in H. destruct H as [Hcc H5].
   rewrite vfor_ok in H1, H2, H3, H4, H5.
-  unfold schema_rules. split; [|split; [|split; [|split]]].
+  unfold schema_rules. split; [|split; [|split; [|split; [|split]]]].
   - intros ms n l Hms Hin. pose proof (uses_declared_ok _ _ (H3 ms Hms) n l Hin) as Hd.
     apply declared_group_in in Hd. exact Hd.
   - eapply cc_acyclic; eassumption.
@@ -346,26 +514,29 @@ Proof.
   - apply Forall_forall. intros e He. eapply element_check_sound; [assumption | apply H4; assumption].
   - intros ms a Hms Hin. apply validate_attr_sound. specialize (H5 ms Hms). rewrite vfor_ok in H5. apply H5.
     unfold member_attrs. apply in_flat_map. exists (MAttr a). split; [assumption | left; reflexivity].
+  - apply child_cycles_sound; [assumption| |assumption].
+    intros e He. eapply element_check_children. apply H4. assumption.
 Qed.
 
-Lemma parse_string_sound : forall rl text s, parse_string rl text = Ok s -> WellFormed s.
+Lemma parse_string_sound : forall rl text s, parse_string_rec rl text = Ok s -> WellFormed s.
 Proof.
   intros rl text s H. pose proof (parse_string_syn _ _ _ H) as [Hsyn _].
   apply parse_string_ok_parse in H. destruct H as [_ Hv]. split; [assumption|].
-  eapply validate_sound; [|eassumption]. destruct Hsyn as (_ & Hg & _). exact Hg.
+  destruct Hsyn as (_ & Hg & He & _). eapply validate_sound; eassumption.
 Qed.
 
 Lemma rule_breaking_rejected : forall rl text s,
   (groups_of text + 2 <= rl)%nat -> parse_text text = Ok s -> ~ WellFormed s ->
-  exists l, parse_string rl text = SchemaErr l /\ 1 <= l <= cnl text + 1.
+  exists l, parse_string_rec rl text = SchemaErr l /\ 1 <= l <= cnl text + 1.
 Proof.
   intros rl text s Hrl Hp Hw. destruct (parse_string_within_limit rl text Hrl) as [[s' H]|H]; [|exact H].
   exfalso. apply Hw. pose proof (parse_string_ok_parse _ _ _ H) as [Hp' _].
   rewrite Hp in Hp'. inversion Hp'; subst. eapply parse_string_sound; eassumption.
 Qed.
 
-Lemma validate_rejects : forall rl s, NoDup (map g_name (s_groups s)) -> ~ schema_rules s -> validate rl s <> VOk.
-Proof. intros rl s Hnd Hr Hv. apply Hr. eapply validate_sound; eassumption. Qed.
+Lemma validate_rejects : forall rl s, NoDup (map g_name (s_groups s)) -> NoDup (map e_name (s_elements s)) ->
+  ~ schema_rules s -> validate_rec rl s <> VOk.
+Proof. intros rl s Hnd Hnde Hr Hv. apply Hr. eapply validate_sound; eassumption. Qed.
 
 (* ---- the RecursionError of _check_group_cycle is monotone in the frame budget *)
 
@@ -377,7 +548,7 @@ Definition cc_rel (r1 r0 : vres) : Prop :=
   end.
 
 Lemma cc_S : forall groups left' name stack line,
-  check_cycle groups (S left') name stack line =
+  check_cycle_rec groups (S left') name stack line =
   if smem name stack then match left' with O => VExn RecursionError | S _ => VErr line end
   else match find_group groups name with
        | None => VOk
@@ -386,25 +557,25 @@ Lemma cc_S : forall groups left' name stack line,
             match ms with
             | [] => VOk
             | MUse g' l :: r =>
-              match check_cycle groups left' g' (stack ++ [name]) l with VOk => loop r | e => e end
+              match check_cycle_rec groups left' g' (stack ++ [name]) l with VOk => loop r | e => e end
             | _ :: r => loop r
             end) (g_members g)
        end.
 Proof. reflexivity. Qed.
 
 Lemma cc_mono : forall groups left name stack line,
-  cc_rel (check_cycle groups (S left) name stack line) (check_cycle groups left name stack line).
+  cc_rel (check_cycle_rec groups (S left) name stack line) (check_cycle_rec groups left name stack line).
 Proof.
   intros groups. induction left as [|l' IH]; intros name stack line.
-  - change (check_cycle groups 0 name stack line) with (VExn RecursionError).
-    destruct (check_cycle groups 1 name stack line); simpl; auto.
+  - change (check_cycle_rec groups 0 name stack line) with (VExn RecursionError).
+    destruct (check_cycle_rec groups 1 name stack line); simpl; auto.
   - rewrite (cc_S groups (S l')), (cc_S groups l').
     destruct (smem name stack); [exact I|].
     destruct (find_group groups name) as [g|]; [|left; reflexivity].
     induction (g_members g) as [|m ms IHm]; [left; reflexivity|].
     destruct m; try exact IHm.
     specialize (IH g0 (stack ++ [name]) line0). unfold cc_rel in IH.
-    destruct (check_cycle groups (S l') g0 (stack ++ [name]) line0) eqn:E1.
+    destruct (check_cycle_rec groups (S l') g0 (stack ++ [name]) line0) eqn:E1.
     + destruct IH as [E0|E0]; rewrite E0.
       * exact IHm.
       * match goal with |- cc_rel ?X _ => destruct X end; simpl; auto.
@@ -418,21 +589,21 @@ Proof.
   intros groups rl e. unfold cycle_step. generalize groups at 1 3 as G.
   induction groups as [|g gs IH]; intros G H; cbn [vfor] in *; [discriminate|].
   pose proof (cc_mono G rl (g_name g) [] (g_line g)) as Hm. unfold cc_rel in Hm.
-  destruct (check_cycle G (S rl) (g_name g) [] (g_line g)).
+  destruct (check_cycle_rec G (S rl) (g_name g) [] (g_line g)).
   - destruct Hm as [E|E]; rewrite E; [|reflexivity]. apply IH. assumption.
   - discriminate.
   - rewrite Hm. reflexivity.
 Qed.
 
 Lemma cc_exn_rec : forall groups left name stack line e,
-  check_cycle groups left name stack line = VExn e -> e = RecursionError.
+  check_cycle_rec groups left name stack line = VExn e -> e = RecursionError.
 Proof.
   intros groups. induction left as [|l IH]; intros name stack line e E; [simpl in E; congruence|].
   rewrite cc_S in E. destruct (smem name stack); [destruct l; congruence|].
   destruct (find_group groups name) as [g'|]; [|discriminate].
   induction (g_members g') as [|m ms IHm]; [discriminate|].
   destruct m; try (apply IHm; assumption).
-  destruct (check_cycle groups l g (stack ++ [name]) line0) eqn:E'; [apply IHm; assumption | discriminate|].
+  destruct (check_cycle_rec groups l g (stack ++ [name]) line0) eqn:E'; [apply IHm; assumption | discriminate|].
   inversion E; subst. eapply IH; eassumption.
 Qed.
 
@@ -440,7 +611,7 @@ Lemma cycle_step_exn : forall groups rl e, cycle_step rl groups = VExn e -> e = 
 Proof.
   intros groups rl e. unfold cycle_step. generalize groups at 1 as G.
   induction groups as [|g gs IH]; intros G H; cbn [vfor] in *; [discriminate|].
-  destruct (check_cycle G rl (g_name g) [] (g_line g)) eqn:E; [eapply IH; eassumption | discriminate|].
+  destruct (check_cycle_rec G rl (g_name g) [] (g_line g)) eqn:E; [eapply IH; eassumption | discriminate|].
   inversion H; subst. eapply cc_exn_rec; eassumption.
 Qed.
 
@@ -456,14 +627,14 @@ Qed.
 
 Lemma recursion_monotone : forall text s rl e,
   parse_text text = Ok s -> cycle_step rl (s_groups s) = VExn e ->
-  forall rl', (rl' <= rl)%nat -> parse_string rl' text = PyExn RecursionError.
+  forall rl', (rl' <= rl)%nat -> parse_string_rec rl' text = PyExn RecursionError.
 Proof.
-  intros text s rl e Hp Hc rl' Hle. unfold parse_string. rewrite Hp.
+  intros text s rl e Hp Hc rl' Hle. unfold parse_string_rec. rewrite Hp.
   pose proof (cycle_step_mono _ _ _ Hc rl' Hle) as H. unfold cycle_step in H.
-  unfold validate. rewrite H. reflexivity.
+  unfold validate_rec. rewrite H. reflexivity.
 Qed.
 
-Lemma recursion_refuted_all : forall rl, (rl <= 1000)%nat -> parse_string rl (chain_text 1001) = PyExn RecursionError.
+Lemma recursion_refuted_all : forall rl, (rl <= 1000)%nat -> parse_string_rec rl (chain_text 1001) = PyExn RecursionError.
 Proof.
   assert (H : exists s, parse_text (chain_text 1001) = Ok s /\ cycle_step 1000 (s_groups s) = VExn RecursionError).
   { eexists. split; [vm_compute; reflexivity | vm_compute; reflexivity]. }
@@ -471,10 +642,10 @@ Proof.
 Qed.
 
 Lemma recursion_refuted_full :
-  (forall rl, (rl <= 1000)%nat -> parse_string rl (chain_text 1001) = PyExn RecursionError) /\
+  (forall rl, (rl <= 1000)%nat -> parse_string_rec rl (chain_text 1001) = PyExn RecursionError) /\
   groups_of (chain_text 1001) = 1001%nat /\
-  parse_string 100 (chain_text 101) = PyExn RecursionError /\
-  is_ok (parse_string 101 (chain_text 101)) = true.
+  parse_string_rec 100 (chain_text 101) = PyExn RecursionError /\
+  is_ok (parse_string_rec 101 (chain_text 101)) = true.
 Proof.
   split; [exact recursion_refuted_all|].
   destruct recursion_refuted as (_ & _ & H1 & H2 & H3). auto.
